@@ -19,4 +19,6 @@ def run(tier):
     wave2.fault_signals_unblocked_rule(run, f, "C24-FAULT-SIGNALS-UNBLOCKED")
     # clauses added for the wave-2 seeds (rules/wave2.py; DESIGN 12a)
     wave3.always_redirects_rule(run, f, "C24-ALWAYS-REDIRECTS")
+    # clauses added for the wave-2 seeds (rules/wave2.py; DESIGN 12a)
+    wave3.suspender_popped_rule(run, f, "C24-SUSPENDER-POPPED")
     return run.finish()
